@@ -146,7 +146,25 @@ fn case(r: &mut Rng, res: &mut CaseResult) {
         let text = wire::rand_shortstr(r);
         let want_err = format!("ServerClosedChannel({},{},{:?})", n, code, text);
         let before = h.peek(|st| st.reflex.chan_close_oks.iter().filter(|c| **c == n).count());
-        h.inject(chan_close_frame(n, code, &text));
+        // the awaited reply and the close back to back in one read (reply first)
+        let reply_then_close = state == VState::RpcInFlight && !react_drop && r.chance(1, 3);
+        if reply_then_close {
+            let close = chan_close_frame(n, code, &text);
+            h.reflex(|rf, out| {
+                rf.hold_channels.remove(&n);
+                let mut bytes = Vec::new();
+                let (mine, rest): (Vec<_>, Vec<_>) = rf.held.drain(..).partition(|x| x.ch == n);
+                rf.held = rest;
+                for m in mine {
+                    bytes.extend(m.frames.concat());
+                }
+                bytes.extend(close);
+                rf.note_server_bytes(&bytes);
+                out.push(bytes);
+            });
+        } else {
+            h.inject(chan_close_frame(n, code, &text));
+        }
         log.push(format!("round {}: server closes channel {} in state {:?} (owner reacts by dropping: {})", round, n, state, react_drop));
         // the client must answer CloseOk on n
         if !h.wait(W, |st| st.reflex.chan_close_oks.iter().filter(|c| **c == n).count() > before) {
@@ -155,6 +173,17 @@ fn case(r: &mut Rng, res: &mut CaseResult) {
         }
         // the call in flight / the next call fails with the close error
         match state {
+            VState::RpcInFlight if reply_then_close => {
+                // the call got its own reply; the close error is for the next call
+                match victim.reply(W) {
+                    Some(Rep::Done(Ok(()))) => {}
+                    other => res.violate("reply_lost_before_close", format!("call in flight on channel {} whose reply arrived right before the close: {:?}, want Ok", n, other)),
+                }
+                match victim.call(Cmd::Rpc) {
+                    Some(Rep::Done(Err(e))) if e == want_err => {}
+                    other => res.violate("wrong_error_on_closed_channel", format!("next call on channel {} after reply+close in one read: {:?}, want Err({})", n, other, want_err)),
+                }
+            }
             VState::RpcInFlight => {
                 match victim.reply(W) {
                     Some(Rep::Done(Err(e))) if e == want_err => {}
@@ -180,7 +209,12 @@ fn case(r: &mut Rng, res: &mut CaseResult) {
             }
             _ => {}
         }
-        if !(state == VState::RpcInFlight && react_drop) {
+        if reply_then_close {
+            match victim.call(Cmd::Nowait) {
+                Some(Rep::Done(Err(_))) => {}
+                other => res.violate("closed_channel_still_usable", format!("later call on channel {}: {:?}", n, other)),
+            }
+        } else if !(state == VState::RpcInFlight && react_drop) {
             // wait for racing publishes to be answered, then the next call must fail with the close error
             std::thread::sleep(std::time::Duration::from_millis(1));
             while victim.has_reply() {
